@@ -45,6 +45,41 @@ example : ∃ e, stD exWorld exCfg (.cls 0) (.dict [(.str "a", .str "x"), (.str 
   rw [C04_error_iff]
   simp [stF, stFFields, exWorld, exCfg, World.fields, Field.key, dlookup, Obj.pyEq, Obj.num2?,
     Obj.toInt?, parseInt?, isDigit]
+
+/-! Non-vacuity for class unions: members told apart by their unique required attribute; a payload of member 1 with a
+bad leaf is rejected by both templates (the union hook adds no group of its own: the class-level group of the chosen
+member is the whole tree), a good one is accepted as member 1; two members with the same attributes are refused. -/
+def c04WorldU : World :=
+  { classes :=
+      [ { kind := .attrs, frozen := false, fields :=
+            [ { name := "a", alias := "a", ty := some .int, dflt := .none, init := true, required := true } ] },
+        { kind := .dataclass, frozen := false, fields :=
+            [ { name := "b", alias := "b", ty := some .int, dflt := .none, init := true, required := true } ] },
+        { kind := .attrs, frozen := false, fields :=
+            [ { name := "a", alias := "a", ty := some .int, dflt := .none, init := true, required := true } ] } ],
+    enums := [] }
+def c04CfgU : Cfg := { gen := true, tupleStrat := false, detailed := false, forbid := false }
+
+example : stF c04WorldU c04CfgU (.union [0, 1] true) (.dict [(.str "b", .str "12")]) = some (.inst 1 [("b", .int 12)]) := by
+  have hp : unionPick c04WorldU [0, 1] true (.dict [(.str "b", .str "12")]) = .ok 1 := by decide
+  rw [stF_union, hp]
+  simp [stF, stFFields, c04WorldU, c04CfgU, World.fields, Field.key, dlookup, Obj.pyEq, Obj.num2?, Dflt.value?,
+    Obj.toInt?, parseInt?, isDigit, digitsVal]
+example : stD c04WorldU c04CfgU (.union [0, 1] true) (.dict [(.str "b", .str "x")]) = .error (.cve [(some "b", .leaf)]) := by
+  have hp : unionPick c04WorldU [0, 1] true (.dict [(.str "b", .str "x")]) = .ok 1 := by decide
+  rw [stD_union, hp]
+  simp [stD, stDFields, c04WorldU, c04CfgU, World.fields, Field.key, dlookup, Obj.pyEq, Obj.num2?, Dflt.value?,
+    Obj.toInt?, parseInt?, isDigit, extraKeys, keysOf, fieldNames, initFields, Obj.memPy]
+example : stF c04WorldU c04CfgU (.union [0, 1] true) .none = some .none := by
+  have hp : unionPick c04WorldU [0, 1] true .none = .none := by decide
+  rw [stF_union, hp]
+/-- indistinguishable members: hook creation is refused, whatever the payload (here a perfectly good one) -/
+example : stF c04WorldU c04CfgU (.union [0, 2] false) (.dict [(.str "a", .int 1)]) = Option.none ∧
+    (∃ e, stD c04WorldU c04CfgU (.union [0, 2] false) (.dict [(.str "a", .int 1)]) = .error e) := by
+  have hp : unionPick c04WorldU [0, 2] false (.dict [(.str "a", .int 1)]) = .refuseCreate := by decide
+  constructor
+  · rw [stF_union, hp]
+  · rw [C04_error_iff, stF_union, hp]
 end Examples
 
 end CattrsModel
